@@ -129,16 +129,14 @@ def chunkTags (w : BufFile) : List Bytes → List String
 def opTags (m : OpenMode) (s : Handles) : List MOp → List String
   | [] => []
   | .append k r f :: ops =>
-    let written := match f with | none => r | some n => r.take n
     (if r.isEmpty then ["no-slice"] else if (recBytes r).isEmpty then ["empty-record"] else []) ++
-    (if r.length > 1 then ["multi-chunk"] else []) ++ chunkTags (s.view k) written ++
+    (if r.length > 1 then ["multi-chunk"] else []) ++
     (if k != 0 then ["second-appender"] else []) ++
     (match f with
-     | none => if !(s.view k).buf.isEmpty then ["flushes-torn-prefix"] else []
-     | some _ => if (MOp.append k r f).torn then ["encoder-error", "encoder-error-torn"] else ["encoder-error"]) ++
+     | none => chunkTags (s.view k) [recBytes r]
+     | some _ => if (MOp.append k r f).torn then ["encoder-error", "encoder-error-after-slices"] else ["encoder-error"]) ++
     opTags m (s.applyOp m (.append k r f)) ops
-  | .restart k :: ops =>
-    ("restart" :: (if !(s.view k).buf.isEmpty then ["flushes-torn-prefix"] else [])) ++ opTags m (s.applyOp m (.restart k)) ops
+  | .restart k :: ops => "restart" :: opTags m (s.applyOp m (.restart k)) ops
   | .foreign x :: ops => "foreign-append" :: opTags m (s.applyOp m (.foreign x)) ops
   | .build :: ops => "multi-handle" :: opTags m (s.applyOp m .build) ops
 
@@ -170,14 +168,8 @@ def handleSeq (mS preS opsS : String) (obs : List String) : Answer :=
     let spec := match firstDiff 0 expect got with
       | none => "ok"
       | some k =>
-        -- the known defect: the code does exactly what the model says, and what differs from the
-        -- statement is the torn prefix of a failed encode that has reached the file
-        let tornBefore := (ops.take (k + 1)).any MOp.torn
-        if tornBefore ∧ got[k]? = modelL[k]? ∧ got[k]?.isSome then
-          "FAIL:file after op " ++ toString k ++ " contains the torn prefix of a record whose encoder failed;sig=C04/seq-encoder-error-torn"
-        else
-          let kind := match ops[k]? with | some op => opKind op | none => "arity"
-          "FAIL:file after op " ++ toString k ++ " is not initial ++ whole acknowledged records and foreign appends in call order;sig=C04/seq-" ++ modeName ++ "-" ++ kind
+        let kind := match ops[k]? with | some op => opKind op | none => "arity"
+        "FAIL:file after op " ++ toString k ++ " is not initial ++ whole acknowledged records and foreign appends in call order;sig=C04/seq-" ++ modeName ++ "-" ++ kind
     let tags := dedup ([modeName, if pre.isSome then "pre-existing" else "fresh"] ++ opTags m s0 ops)
     { model, spec, tags := if ops.isEmpty then "trivial" :: tags else "seq" :: tags }
   | _, _, _, _ => badCase "seq"
